@@ -598,7 +598,7 @@ func fromJSON(raw string) (*nCert, error) {
 			}
 			ru := r.u64(r.req(gi, "rollup_index", w), w+".rollup_index", 32)
 			lf := r.u64(r.req(gi, "leaf_index", w), w+".leaf_index", 32)
-			n.GlobalIndex = globalIndex(flag, uint32(ru), uint32(lf))
+			n.GlobalIndex = canonGlobalIndex(flag, uint32(ru), uint32(lf))
 			cd := r.obj(r.req(em, "claim_data", w), w+".claim_data")
 			if mv, ok := cd["Mainnet"]; ok {
 				mm := r.obj(mv, w+".Mainnet")
@@ -626,6 +626,15 @@ func fromJSON(raw string) (*nCert, error) {
 
 // globalIndex is the bridge's 256-bit global index: bit 64 = mainnet flag, bits 32..63 = rollup
 // index, bits 0..31 = leaf index.
+// canonGlobalIndex is the value a (flag, rollup, leaf) triple denotes: the rollup part of a mainnet index carries no
+// information (the bridge contract ignores it), so it is zero in the denoted value.
+func canonGlobalIndex(mainnet bool, rollup, leaf uint32) *big.Int {
+	if mainnet {
+		rollup = 0
+	}
+	return globalIndex(mainnet, rollup, leaf)
+}
+
 func globalIndex(mainnet bool, rollup, leaf uint32) *big.Int {
 	x := new(big.Int)
 	if mainnet {
